@@ -297,7 +297,14 @@ func (in *interp) conv(tdst, tsrc types.Type, x value) value {
 			case *types.Slice:
 				eb := udst.Elem().Underlying().(*types.Basic)
 				if eb.Kind() == types.Byte {
-					return termsToSlice(in.strBytes(x))
+					// the runtime rounds the allocation up to a size class: the result has spare
+					// capacity (cap 8 for a 4-byte string), so an append to it may write in place
+					b := in.strBytes(x)
+					out := make([]value, len(b), roundupsize(len(b)))
+					for i, t := range b {
+						out[i] = t
+					}
+					return out
 				}
 				if s, ok := x.(string); ok { // []rune
 					var res []value
@@ -561,6 +568,13 @@ func (in *interp) callBuiltin(caller *frame, callpos token.Pos, fn *ssa.Builtin,
 			}
 			// copy element values (aggregates are stored by value)
 			n := len(arg0)
+			if in.race != nil && cap(arg0)-n >= len(s) {
+				// an append that fits the spare capacity writes into the shared backing array
+				full := arg0[:cap(arg0)]
+				for i := range s {
+					in.race.write(in.sch.cur, &full[n+i], false)
+				}
+			}
 			out := append(arg0, s...)
 			for i := n; i < len(out); i++ {
 				out[i] = copyVal(out[i])
@@ -681,4 +695,14 @@ func (in *interp) rangeIter(x value, t types.Type) iter {
 		panic("range over symbolic string unsupported")
 	}
 	panic(fmt.Sprintf("cannot range over %T", x))
+}
+
+// roundupsize is the allocation size class the Go runtime rounds a small byte allocation up to.
+func roundupsize(n int) int {
+	for _, c := range []int{8, 16, 24, 32, 48, 64, 80, 96, 112, 128} {
+		if n <= c {
+			return c
+		}
+	}
+	return n
 }
